@@ -24,6 +24,9 @@ import (
 // history push-and-pull is run until a run transfers nothing; then both sides must agree on the document's current
 // revision, body and tombstone state, and one more run must transfer no revisions.
 
+// c06Prop is the property the running test reports under (the storage-fault part on checkpoint documents is C17's)
+var c06Prop = "C06"
+
 type c06Case struct {
 	Ops      []string `json:"ops"`
 	Protocol string   `json:"protocol"` // "v3" rev-tree, "v4" version vectors
@@ -31,12 +34,18 @@ type c06Case struct {
 	// Env, when set, is the one departure from the default environment made during the replication run whose op is
 	// marked with "!" (part TestVerifC06Env)
 	Env *c06Env `json:"env,omitempty"`
+	// Fault, when set, is the one storage fault injected during the run marked with "!" (parts TestVerifC06Fault,
+	// TestVerifC17Repl)
+	Fault *c06Fault `json:"fault,omitempty"`
 }
 
 func (c c06Case) String() string {
 	s := fmt.Sprintf("protocol=%s resolver=%s history=[%s]", c.Protocol, c.Resolver, strings.Join(c.Ops, " "))
 	if c.Env != nil {
 		s += " during the run marked !: " + c.Env.String()
+	}
+	if c.Fault != nil {
+		s += " during the run marked !: " + c.Fault.String()
 	}
 	return s
 }
@@ -58,6 +67,7 @@ type c06State struct {
 	CV      string
 	Body    string
 	Leaves  string // sorted "revid[parent](deleted)" of every leaf of the revision tree
+	Roots   int    // number of parentless revisions in the revision tree
 }
 
 func c06Read(rt *RestTester, docID string) c06State {
@@ -81,6 +91,11 @@ func c06Read(rt *RestTester, docID string) c06State {
 	}
 	sort.Strings(leaves)
 	st.Leaves = strings.Join(leaves, ",")
+	for _, ri := range doc.History {
+		if ri.Parent == "" {
+			st.Roots++
+		}
+	}
 	if !st.Deleted {
 		body, _ := doc.GetDeepMutableBody()
 		b, _ := json.Marshal(body)
@@ -186,25 +201,33 @@ func (w *c06World) replicate(dir string) c06RunResult {
 // c06RootCause names the mechanism of a divergence where it can be recognised from the two revision trees, so that a
 // known mechanism does not hide a different one.
 func c06RootCause(a, p c06State) string {
-	// The active side resolved a conflict in favour of the remote branch by tombstoning its own branch locally
-	// (a non-winning deleted leaf the passive side does not have), while the passive side holds the parent of that
-	// tombstone as a live leaf and made it its winner.
-	pl := map[string]bool{}
-	for _, l := range strings.Split(p.Leaves, ",") {
-		pl[strings.SplitN(l, "<", 2)[0]] = true
+	// The document was created independently on both peers (two roots), and one peer holds a tombstone that is not its
+	// winning revision on a branch whose tip is the other peer's live winner: the rev-tree protocol only offers a
+	// document's winning revision, so that tombstone (put there by conflict resolution tombstoning the losing branch, or
+	// by a local delete that another tombstoned branch outranks) is never propagated. Recognised in both directions.
+	// A single-rooted tree in this shape is a different mechanism and is not recognised here.
+	oneWay := func(x, y c06State) bool {
+		if x.Roots < 2 {
+			return false
+		}
+		yl := map[string]bool{}
+		for _, l := range strings.Split(y.Leaves, ",") {
+			yl[strings.SplitN(l, "<", 2)[0]] = true
+		}
+		for _, l := range strings.Split(x.Leaves, ",") {
+			parts := strings.SplitN(l, "<", 2)
+			if len(parts) != 2 || !strings.HasSuffix(parts[1], "(deleted)") {
+				continue
+			}
+			parent := strings.TrimSuffix(parts[1], "(deleted)")
+			if parts[0] != x.RevTree && !yl[parts[0]] && yl[parent] && y.RevTree == parent && !y.Deleted {
+				return true
+			}
+		}
+		return false
 	}
-	for _, l := range strings.Split(a.Leaves, ",") {
-		parts := strings.SplitN(l, "<", 2)
-		if len(parts) != 2 || !strings.HasSuffix(parts[1], "(deleted)") {
-			continue
-		}
-		parent := strings.TrimSuffix(parts[1], "(deleted)")
-		// (the revision the passive side made its winner was written on the active side: it is the active side's own
-		// branch that lost there. A tombstone the active side put on a revision of the passive side's making is a
-		// different mechanism and is not recognised here.)
-		if parts[0] != a.RevTree && !pl[parts[0]] && pl[parent] && p.RevTree == parent && !p.Deleted && strings.Contains(p.Body, `"by":"A"`) {
-			return "losing-branch-tombstone-not-propagated"
-		}
+	if oneWay(a, p) || oneWay(p, a) {
+		return "losing-branch-tombstone-not-propagated"
 	}
 	return ""
 }
@@ -217,6 +240,9 @@ func c06History(t testing.TB, r *vreport.Report, c c06Case, peers TestISGRPeers,
 	if c.Env != nil {
 		tag += "/" + c.Env.tag()
 	}
+	if c.Fault != nil {
+		tag += "/" + c.Fault.tag()
+	}
 	setSync := func(fn string) {
 		coll, cctx := w.active.GetSingleTestDatabaseCollectionWithUser()
 		if _, err := coll.UpdateSyncFun(cctx, fn); err != nil {
@@ -225,7 +251,7 @@ func c06History(t testing.TB, r *vreport.Report, c c06Case, peers TestISGRPeers,
 	}
 	setSync(c06RejectingSyncFn) // peers are shared by several histories: every history starts with the refusing function
 	accepts := false
-	perDirectionFirst := c.Env != nil
+	perDirectionFirst := c.Env != nil || c.Fault != nil
 	for _, op := range c.Ops {
 		if op == "acceptA" {
 			perDirectionFirst = true
@@ -253,24 +279,33 @@ func c06History(t testing.TB, r *vreport.Report, c c06Case, peers TestISGRPeers,
 				// (revision caches emptied, as after eviction, so that the run has to read the document from storage)
 				w.active.GetDatabase().FlushRevisionCacheForTest()
 				w.passive.GetDatabase().FlushRevisionCacheForTest()
-				c06Hook.arm(w, c.Env)
-				res := w.replicate(strings.TrimSuffix(op, "!"))
-				fired, noop := c06Hook.disarm()
-				if noop {
-					r.Add("departures_that_could_not_be_made", 1)
+				var res c06RunResult
+				var fired bool
+				if c.Fault != nil {
+					c06ArmFault(w, c.Fault)
+					res = w.replicate(strings.TrimSuffix(op, "!"))
+					fired = c06DisarmFault(w, r)
+				} else {
+					c06Hook.arm(w, c.Env)
+					res = w.replicate(strings.TrimSuffix(op, "!"))
+					var noop bool
+					fired, noop = c06Hook.disarm()
+					if noop {
+						r.Add("departures_that_could_not_be_made", 1)
+					}
 				}
 				if !fired {
 					return false // the run makes fewer than K such calls
 				}
 				if !res.Stopped && res.Err == "" {
-					r.Violate("C06/replication-did-not-complete/"+tag+"/"+op+"/"+c.Env.tag(), fmt.Sprintf("one-shot %s (step %d) reached neither stopped nor error within 60 s; %s", op, i+1, c), c)
+					r.Violate(c06Prop+"/replication-did-not-complete/"+tag+"/"+op, fmt.Sprintf("one-shot %s (step %d) reached neither stopped nor error within 60 s; %s", op, i+1, c), c)
 					return true
 				}
 				continue
 			}
 			res := w.replicate(op)
 			if !res.Stopped {
-				r.Violate("C06/replication-did-not-complete/"+tag+"/"+op, fmt.Sprintf("one-shot %s (step %d) did not reach stopped within 60 s: %q; %s", op, i+1, res.Err, c), c)
+				r.Violate(c06Prop+"/replication-did-not-complete/"+tag+"/"+op, fmt.Sprintf("one-shot %s (step %d) did not reach stopped within 60 s: %q; %s", op, i+1, res.Err, c), c)
 				return true
 			}
 		}
@@ -296,7 +331,7 @@ func c06History(t testing.TB, r *vreport.Report, c c06Case, peers TestISGRPeers,
 				a0, p0 := c06Read(w.active, docID), c06Read(w.passive, docID)
 				res := w.replicate(dir)
 				if !res.Stopped {
-					r.Violate("C06/replication-did-not-complete/"+tag+"/catch-up-"+dir, fmt.Sprintf("catch-up %s did not reach stopped within 60 s: %q; %s", dir, res.Err, c), c)
+					r.Violate(c06Prop+"/replication-did-not-complete/"+tag+"/catch-up-"+dir, fmt.Sprintf("catch-up %s did not reach stopped within 60 s: %q; %s", dir, res.Err, c), c)
 					return true
 				}
 				if res.Pushed != 0 || res.Pulled != 0 || a0 != c06Read(w.active, docID) || p0 != c06Read(w.passive, docID) {
@@ -310,9 +345,9 @@ func c06History(t testing.TB, r *vreport.Report, c c06Case, peers TestISGRPeers,
 		a, p := c06Read(w.active, docID), c06Read(w.passive, docID)
 		if !refused() && (a.Exists != p.Exists || a.Deleted != p.Deleted || a.Body != p.Body) {
 			if cause := c06RootCause(a, p); cause != "" {
-				r.Violate("C06/diverged/"+cause+"/"+tag0, fmt.Sprintf("after pull and push (resuming from their checkpoints) transfer nothing more: active=%+v passive=%+v; %s", a, p, c), c)
+				r.Violate(c06Prop+"/diverged/"+cause+"/"+tag0, fmt.Sprintf("after pull and push (resuming from their checkpoints) transfer nothing more: active=%+v passive=%+v; %s", a, p, c), c)
 			} else {
-				r.Violate("C06/diverged-after-per-direction-catch-up/"+tag+"/"+strings.Join(c.Ops, ","), fmt.Sprintf("after pull and push (resuming from their checkpoints) transfer nothing more: active=%+v passive=%+v; %s", a, p, c), c)
+				r.Violate(c06Prop+"/diverged-after-per-direction-catch-up/"+tag+"/"+strings.Join(c.Ops, ","), fmt.Sprintf("after pull and push (resuming from their checkpoints) transfer nothing more: active=%+v passive=%+v; %s", a, p, c), c)
 			}
 			return true
 		}
@@ -326,7 +361,7 @@ func c06History(t testing.TB, r *vreport.Report, c c06Case, peers TestISGRPeers,
 		a0, p0 := c06Read(w.active, docID), c06Read(w.passive, docID)
 		last = w.replicate("pushpull")
 		if !last.Stopped {
-			r.Violate("C06/replication-did-not-complete/"+tag+"/catch-up", fmt.Sprintf("catch-up push-and-pull run %d did not reach stopped within 60 s: %q; %s", runs, last.Err, c), c)
+			r.Violate(c06Prop+"/replication-did-not-complete/"+tag+"/catch-up", fmt.Sprintf("catch-up push-and-pull run %d did not reach stopped within 60 s: %q; %s", runs, last.Err, c), c)
 			return true
 		}
 		a1, p1 := c06Read(w.active, docID), c06Read(w.passive, docID)
@@ -342,7 +377,7 @@ func c06History(t testing.TB, r *vreport.Report, c c06Case, peers TestISGRPeers,
 	a, p := c06Read(w.active, docID), c06Read(w.passive, docID)
 	desc := fmt.Sprintf("active=%+v passive=%+v; %s", a, p, c)
 	if !quiet {
-		r.Violate("C06/never-quiescent/"+tag+"/"+strings.Join(c.Ops, ","), fmt.Sprintf("after 5 push-and-pull runs a run still transfers revisions (pushed=%d pulled=%d); %s", last.Pushed, last.Pulled, desc), c)
+		r.Violate(c06Prop+"/never-quiescent/"+tag+"/"+strings.Join(c.Ops, ","), fmt.Sprintf("after 5 push-and-pull runs a run still transfers revisions (pushed=%d pulled=%d); %s", last.Pushed, last.Pulled, desc), c)
 		return true
 	}
 	if !a.Exists && !p.Exists {
@@ -376,14 +411,14 @@ func c06History(t testing.TB, r *vreport.Report, c c06Case, peers TestISGRPeers,
 	if len(diffs) == 1 && diffs[0] == "current-version-differs" && a.Deleted && p.Deleted {
 		// both peers deleted the document independently: the two tombstones have the same revision-tree id but each peer
 		// generated its own version for it, and replication treats tombstone-against-tombstone as nothing to do
-		r.Violate("C06/diverged/independent-deletes-keep-different-current-versions/"+tag0, "after catch-up both peers hold a tombstone (winning revision "+a.RevTree+" / "+p.RevTree+") under different current versions: "+desc, c)
+		r.Violate(c06Prop+"/diverged/independent-deletes-keep-different-current-versions/"+tag0, "after catch-up both peers hold a tombstone (winning revision "+a.RevTree+" / "+p.RevTree+") under different current versions: "+desc, c)
 		return true
 	}
 	if len(diffs) > 0 {
 		if cause := c06RootCause(a, p); cause != "" {
-			r.Violate("C06/diverged/"+cause+"/"+tag0, "after catch-up ("+strings.Join(diffs, ", ")+"): "+desc, c)
+			r.Violate(c06Prop+"/diverged/"+cause+"/"+tag0, "after catch-up ("+strings.Join(diffs, ", ")+"): "+desc, c)
 		} else {
-			r.Violate("C06/diverged/"+strings.Join(diffs, "+")+"/"+tag+"/"+strings.Join(c.Ops, ","), "after catch-up: "+desc, c)
+			r.Violate(c06Prop+"/diverged/"+strings.Join(diffs, "+")+"/"+tag+"/"+strings.Join(c.Ops, ","), "after catch-up: "+desc, c)
 		}
 		return true
 	}
@@ -399,27 +434,35 @@ func c06History(t testing.TB, r *vreport.Report, c c06Case, peers TestISGRPeers,
 		res := w.replicate(dir)
 		a2, p2 := c06Read(w.active, docID), c06Read(w.passive, docID)
 		if res.Pushed != 0 || res.Pulled != 0 || a2 != a || p2 != p {
-			r.Violate("C06/caught-up-replication-transfers-revisions/"+tag+"/"+dir+"/"+strings.Join(c.Ops, ","), fmt.Sprintf("re-running caught-up %s transferred pushed=%d pulled=%d, active now %+v passive now %+v; before: %s", dir, res.Pushed, res.Pulled, a2, p2, desc), c)
+			r.Violate(c06Prop+"/caught-up-replication-transfers-revisions/"+tag+"/"+dir+"/"+strings.Join(c.Ops, ","), fmt.Sprintf("re-running caught-up %s transferred pushed=%d pulled=%d, active now %+v passive now %+v; before: %s", dir, res.Pushed, res.Pulled, a2, p2, desc), c)
 		}
 	}
 	return true
 }
 
 func c06Peers(t *testing.T, protocol string, leaky bool) TestISGRPeers {
+	if !leaky {
+		return c06PeersWith(t, protocol, nil, nil)
+	}
+	// both peers on buckets whose document reads and update callbacks pass through the harness's seam (c06Hook)
+	ctx := base.TestCtx(t)
+	ab, pb := base.GetTestBucket(t), base.GetTestBucket(t)
+	t.Cleanup(func() { ab.Close(ctx); pb.Close(ctx) })
+	return c06PeersWith(t, protocol, ab.LeakyBucketClone(c06Hook.config("A")), pb.LeakyBucketClone(c06Hook.config("P")))
+}
+
+// c06PeersWith builds the two peers, on the given buckets when they are not nil
+func c06PeersWith(t *testing.T, protocol string, ab, pb *base.TestBucket) TestISGRPeers {
 	protocols := []string{db.CBMobileReplicationV3.SubprotocolString()}
 	if protocol == "v4" {
 		protocols = []string{db.CBMobileReplicationV4.SubprotocolString()}
 	}
 	opts := TestISGRPeerOpts{ActivePeerSupportedBLIPSubProtocols: protocols,
 		ActiveRestTesterConfig: &RestTesterConfig{DatabaseConfig: &DatabaseConfig{DbConfig: DbConfig{Name: "activedb"}}, SgReplicateEnabled: true, SyncFn: c06RejectingSyncFn}}
-	if leaky {
-		// both peers on buckets whose document reads and update callbacks pass through the harness's seam (c06Hook)
-		ctx := base.TestCtx(t)
-		ab, pb := base.GetTestBucket(t), base.GetTestBucket(t)
-		t.Cleanup(func() { ab.Close(ctx); pb.Close(ctx) })
-		opts.ActiveRestTesterConfig.CustomTestBucket = ab.LeakyBucketClone(c06Hook.config("A"))
+	if ab != nil {
+		opts.ActiveRestTesterConfig.CustomTestBucket = ab
 		opts.PassiveRestTesterConfig = &RestTesterConfig{DatabaseConfig: &DatabaseConfig{DbConfig: DbConfig{Name: "passivedb"}},
-			SyncFn: c06AcceptingSyncFn, CustomTestBucket: pb.LeakyBucketClone(c06Hook.config("P"))}
+			SyncFn: c06AcceptingSyncFn, CustomTestBucket: pb}
 	}
 	return SetupISGRPeersWithOpts(t, opts)
 }
